@@ -413,7 +413,7 @@ class World:
     def deliver(self, row_id, die_at=None):
         """Run the real process_one() on the chosen row.
 
-        die_at: None | 'mark' (worker dies after the handler returned, before
+        die_at: None | 'poll' (worker dies right after claiming the row) | 'mark' (worker dies after the handler returned, before
         the processor's own processed mark) | 'ack' (dies before the ack).
         Returns (handled: bool, exception or None).
         """
@@ -425,6 +425,8 @@ class World:
         def poll_one():
             m = orig_poll()
             polled.append(m)
+            if die_at == "poll" and m is not None:
+                raise Die("after the claim, before the handler")
             return m
 
         q.poll_one = poll_one
